@@ -176,7 +176,8 @@ def analyze(name, info, summaries=None, nonnullable=None, hard_failing=(), dir_d
         r = it.concretize(r)
         after = G.tls_snapshot(it.env['tls'])
         fact = {'ok': r.variant == 'Ok', 'log': list(it.env['g'].log)}
-        fact['failure'] = (r.variant == 'Err' and type(r.fields[0]) is Enum and r.fields[0].variant == 'Failure')
+        fact['failure'] = (r.variant == 'Err' and type(r.fields[0]) is Enum and r.fields[0].variant in ('Failure', 'Incomplete'))
+        fact['incomplete'] = (r.variant == 'Err' and type(r.fields[0]) is Enum and r.fields[0].variant == 'Incomplete')
         # V2: net effect + content preserved below the entry depth
         dd = len(after[0]) - len(before[0])
         dv = len(after[1]) - len(before[1])
